@@ -118,6 +118,22 @@ def run(ck: Check) -> None:
         want.append("OK")
         cases.append(Case("vgpg", [{**e, "other_headers": e["other_headers"][:-2]}, k.hex, data], tag="long-header-shortened", group=1700 + j))
         want.append("E InvalidSignature")
+    # the scalar half of a valid signature plus the group order: not a valid signature (RFC 8032: S < L), rejected like any other corruption
+    L_ = 2 ** 252 + 27742317777372353535851937790883648493
+    nplus = 0
+    for j in range(200):
+        k = gen.key(j % 10)
+        data = gen.oracle_bytes({"scalar-plus-order": j})
+        e = gen.gpg_entry(k, data, gen.GPG_HDR_TYPICAL)
+        sb = bytes.fromhex(e["signature"])
+        s2 = int.from_bytes(sb[32:], "little") + L_
+        if s2 >= 2 ** 256:
+            continue
+        cases.append(Case("vgpg", [{**e, "signature": (sb[:32] + s2.to_bytes(32, "little")).hex()}, k.hex, data], tag="scalar-plus-order", group=1900 + j))
+        want.append("E InvalidSignature")
+        nplus += 1
+        if nplus >= 12:
+            break
     # directed: hashed areas stating lifetimes that are long over / not yet begun / zero, plainly and marked critical (gpg --default-sig-expire,
     # --ask-sig-expire, faked clocks): the library documents that it disregards OpenPGP expiry, so each is valid like any other well-signed entry
     fpr = b"\x04" + bytes(range(20))
